@@ -92,21 +92,29 @@ class Run:
             print(f"HARNESS-NOTE: property={self.prop} {msg}", flush=True)
 
     # --- violations -------------------------------------------------------
-    def violation(self, key: str, what: str, replay: Dict[str, Any]) -> None:
-        """Report a property violation identified by the stable case ``key``."""
+    def violation(self, key: str, what: str, replay: Dict[str, Any], cases: Optional[List[str]] = None) -> None:
+        """Report a property violation identified by the stable case ``key``.
+
+        ``cases`` (optional) are the concrete failing inputs under that key; a known finding that
+        lists cases suppresses only those: anything failing beyond the listed set is a new violation."""
         k = (self.prop, key)
         if k in self._known:
+            listed = self._known[k].get("cases")
+            extra = sorted(set(cases or []) - set(listed)) if listed is not None and cases is not None else []
             self.known_hits[key] = self.known_hits.get(key, 0) + 1
             if key not in self._printed_known:
                 self._printed_known.add(key)
                 print(f"KNOWN-FINDING: property={self.prop} {self._known[k].get('what', what)} [key={key}]",
                       flush=True)
-            return
+            if not extra:
+                return
+            key = key + "|beyond-known:" + ",".join(extra[:8])
+            what = f"fails on inputs not covered by the known finding ({extra[:8]}): " + what
         os.makedirs(REPLAY_DIR, exist_ok=True)
         h = hashlib.sha256(key.encode()).hexdigest()[:12]
         path = os.path.join(REPLAY_DIR, f"{self.prop}-{h}.json")
         with open(path, "w") as f:
-            json.dump({"property": self.prop, "key": key, "what": what, **replay}, f,
+            json.dump({"property": self.prop, "key": key, "what": what, "cases": cases, **replay}, f,
                       indent=1, default=_json_default)
         self.violations.append({"key": key, "what": what, "replay": path})
         if len(self.violations) <= 50:
